@@ -503,6 +503,14 @@ def enum_probe(ctx, table, objdir):
     obs = {o["name"]: o for o in table["obs"]}
     tagged = ", ".join("enum %s:%d" % (e, i + 1) for i, e in enumerate(table["g2"]) if e not in FIXED_ENUMS)
     for targ in vlib.TARGETS:
+        # C23 6.7.2.2 fixed underlying type, first enumerator without a value (fixed by /repo 43138e2; the prelude
+        # itself keeps `= 0` so that a regression shows up here as a VIOLATION and not as a rejected prelude)
+        fsrc = "enum fe : unsigned char { FE_A, FE_B }; int fe_b = FE_B; unsigned long fe_z = sizeof(enum fe);\n"
+        rc, out, err = vlib.cproc(objdir, fsrc, targ)
+        ctx.count("enum-fixed-first|%s" % targ)
+        if rc != 0 or parse_data_values(out).get("fe_b") != 1 or parse_data_values(out).get("fe_z") != obs["uchar"]["size"]:
+            ctx.violation("enum:fixed-unsigned-first-enumerator", "`%s` -> rc=%s %s" % (fsrc.strip(), rc, err.strip()[:120]),
+                          {"target": targ, "replay": {"target": targ, "source": fsrc, "must": "accept"}})
         for k in ("uint", "int", "long"):
             gsrc = pre + "int gt = _Generic((a_%s), %s, default:0);\n" % (k, tagged)
             rc, out, err = vlib.cproc(objdir, gsrc, targ)
